@@ -23,6 +23,7 @@
 From Coq Require Import List NArith ZArith Bool Permutation.
 From SK Require Import lib.LGraph model.C01_Model model.C02_Model model.C09_Model
   proof.C09_Canon proof.C09_Valid proof.C09_Balance proof.C09_Main proof.C09_Indep proof.C09_Indep2 proof.C09_ValidRC proof.C09_WL proof.C09_NautyRigid proof.C09_Nauty.
+From SK Require Import lib.StrJoin model.C09_Strings proof.C09_Str proof.C09_Expand proof.C09_Graph proof.C09_Backends.
 From SK Require model.C08_Model proof.C08_Spec model.C01_Opts.
 Import ListNotations.
 
@@ -152,9 +153,10 @@ Print Assumptions C09_numbering_partnerless_refuted.
 (** 2'. Back-end wl, invariance premise DISCHARGED: if the WL colours (oracle input [ranks]; networkx's contract: colours
        are invariant under renaming - premise) of corresponding atoms correspond and all reactant atoms have different
        colours ([ranks_distinct]), the two presentations get the same canonical graphs from [canonicalise_wl] (the
-       function [run_canon_wl] evaluates), and a second run on the canonical graphs returns them.  Still partial w.r.t.
-       the property text only through the RDKit writer / parser contract S2 (string level). *)
-Theorem C09_numbering_independent_wl_partial :
+       function [run_canon_wl] evaluates), and a second run on the canonical graphs returns them.  These two statements are
+       for presentations that list the bonds in corresponding order (conclusion: the SAME bond list); the general case
+       (any atom order, bond order, bond orientation) and the string level are section 8 below. *)
+Theorem C09_numbering_independent_wl_same_bond_order :
   forall (ranks1 ranks2 : list (N * Z)) (G H G2' H2' : mgraph) (p : N -> N),
   parsed G -> parsed H -> (exists s, In s (node_ids G) /\ In s (node_ids H)) ->
   (forall a b, p a = p b -> a = b) -> (forall n, In n (node_ids G) \/ In n (node_ids H) -> p n <> 0%N) ->
@@ -166,9 +168,9 @@ Theorem C09_numbering_independent_wl_partial :
     canonicalise_wl ranks2 (set_amap G2') (set_amap H2') = Some (Gc2, pairs2, Hc2) /\
     same_upto_order Gc2 Gc1 /\ same_upto_order Hc2 Hc1.
 Proof. exact numbering_independent_wl. Qed.
-Print Assumptions C09_numbering_independent_wl_partial.
+Print Assumptions C09_numbering_independent_wl_same_bond_order.
 
-Theorem C09_fixed_point_wl_partial : forall (ranks1 ranks2 : list (N * Z)) (G H : mgraph),
+Theorem C09_fixed_point_wl_same_bond_order : forall (ranks1 ranks2 : list (N * Z)) (G H : mgraph),
   parsed G -> parsed H -> (exists s, In s (node_ids G) /\ In s (node_ids H)) ->
   ranks_distinct ranks1 G ->
   (forall n, In n (node_ids G) -> C08_Model.rank_of ranks2 (sigma_of (wl_order ranks1 G) n) = C08_Model.rank_of ranks1 n) ->
@@ -177,7 +179,7 @@ Theorem C09_fixed_point_wl_partial : forall (ranks1 ranks2 : list (N * Z)) (G H 
     exists (pairs2 : list (N * N)) (Gc2 Hc2 : mgraph),
       canonicalise_wl ranks2 Gc1 Hc1 = Some (Gc2, pairs2, Hc2) /\ same_upto_order Gc2 Gc1 /\ same_upto_order Hc2 Hc1.
 Proof. exact fixed_point_wl. Qed.
-Print Assumptions C09_fixed_point_wl_partial.
+Print Assumptions C09_fixed_point_wl_same_bond_order.
 
 (** 2''. Back-end nauty, invariance premise DISCHARGED from the C08 facts about the search (the best leaf of a renamed
        graph is the image of a leaf with the same label; leaves with the same label correspond by an automorphism):
@@ -185,8 +187,8 @@ Print Assumptions C09_fixed_point_wl_partial.
        enumerations of the atoms that keeps element, charge, aromaticity, hydrogen count and the bonds is the identity)
        and the element symbols are alphanumeric ([els_ok]), the two presentations get the same canonical graphs from
        [canonicalise_nauty] (the function [run_canon_nauty] evaluates), and a second run returns the canonical graphs.
-       Partial w.r.t. the property text only through the RDKit writer / parser contract S2 (string level). *)
-Theorem C09_numbering_independent_nauty_partial : forall (G H G2' H2' : mgraph) (p : N -> N),
+       Same remark: bonds listed in corresponding order here; general case and string level in section 8. *)
+Theorem C09_numbering_independent_nauty_same_bond_order : forall (G H G2' H2' : mgraph) (p : N -> N),
   parsed G -> parsed H -> (exists s, In s (node_ids G) /\ In s (node_ids H)) ->
   (forall a b, p a = p b -> a = b) -> (forall n, In n (node_ids G) \/ In n (node_ids H) -> p n <> 0%N) ->
   (forall m n, In m (node_ids H) -> ~ In m (node_ids G) -> In n (node_ids H) -> ~ In n (node_ids G) -> (m <= n)%N -> (p m <= p n)%N) ->
@@ -197,9 +199,9 @@ Theorem C09_numbering_independent_nauty_partial : forall (G H G2' H2' : mgraph) 
     canonicalise_nauty (set_amap G2') (set_amap H2') = Some (Gc2, pairs2, Hc2) /\
     same_upto_order Gc2 Gc1 /\ same_upto_order Hc2 Hc1.
 Proof. exact numbering_independent_nauty. Qed.
-Print Assumptions C09_numbering_independent_nauty_partial.
+Print Assumptions C09_numbering_independent_nauty_same_bond_order.
 
-Theorem C09_fixed_point_nauty_partial : forall G H : mgraph,
+Theorem C09_fixed_point_nauty_same_bond_order : forall G H : mgraph,
   parsed G -> parsed H -> (exists s, In s (node_ids G) /\ In s (node_ids H)) ->
   C08_Spec.els_ok (to_c08 G) -> rigid (to_c08 G) ->
   exists (pairs1 : list (N * N)) (Gc1 Hc1 : mgraph),
@@ -207,7 +209,7 @@ Theorem C09_fixed_point_nauty_partial : forall G H : mgraph,
     exists (pairs2 : list (N * N)) (Gc2 Hc2 : mgraph),
       canonicalise_nauty Gc1 Hc1 = Some (Gc2, pairs2, Hc2) /\ same_upto_order Gc2 Gc1 /\ same_upto_order Hc2 Hc1.
 Proof. exact fixed_point_nauty. Qed.
-Print Assumptions C09_fixed_point_nauty_partial.
+Print Assumptions C09_fixed_point_nauty_same_bond_order.
 
 (** 3. The validator is exact: the matcher the correspondence runs answers true iff the two ITS graphs (resp. the two
        reaction centres) are isomorphic on typesGH + order. *)
@@ -289,3 +291,274 @@ Theorem C09_remap_graph_list : forall (H : mgraph) (l : list N),
   remap_graph_list H l = Some (relabel (sigma_of l) H).
 Proof. exact remap_graph_list_spec. Qed.
 Print Assumptions C09_remap_graph_list.
+
+(** 5. STRING LEVEL (round 5, model/C09_Strings.v): the logic of Standardize around the RDKit calls.  RDKit enters as oracle
+       functions: [canon f] = the canonical SMILES filter_valid_molecules + MolToSmiles give for ONE fragment string (None =
+       filtered out), [clean side] = remove_atom_mapping's clean_smiles.  The model functions are what the correspondence
+       evaluates on every `std` case ([run_std]: all six ways of calling the standardiser, the filtered fragment lists,
+       remove_atom_mapping, categorize_reactions), with the oracle tables computed by calling RDKit directly.
+       Vocabulary: [rsmi_of rs ps] = ".".join(rs) + ">>" + ".".join(ps); [frags_ok l] = l non-empty, no '.' and no '>' inside
+       a fragment (what str.split produces from a reaction string). *)
+
+(** the standard form depends ONLY on the multiset of canonical fragment strings of each side - for every oracle.  Instances:
+    fragment order (any permutation of the fragments of both sides), atom order / re-rooting (fragments with the same
+    canonical string), both at once. *)
+Theorem C09_standardize_multiset : forall (canon : str -> option str) (rs ps rs' ps' : list str),
+  frags_ok rs -> frags_ok ps -> frags_ok rs' -> frags_ok ps' ->
+  Permutation (map canon rs) (map canon rs') -> Permutation (map canon ps) (map canon ps') ->
+  standardize_rsmi canon (rsmi_of rs ps) = standardize_rsmi canon (rsmi_of rs' ps').
+Proof. exact standardize_multiset. Qed.
+Print Assumptions C09_standardize_multiset.
+
+Theorem C09_standardize_fragment_order : forall (canon : str -> option str) (rs ps rs' ps' : list str),
+  frags_ok rs -> frags_ok ps -> Permutation rs rs' -> Permutation ps ps' ->
+  standardize_rsmi canon (rsmi_of rs ps) = standardize_rsmi canon (rsmi_of rs' ps').
+Proof. exact standardize_fragment_order. Qed.
+Print Assumptions C09_standardize_fragment_order.
+
+Theorem C09_standardize_rewriting : forall (canon : str -> option str) (rs ps rs' ps' : list str),
+  frags_ok rs -> frags_ok ps -> frags_ok rs' -> frags_ok ps' ->
+  Forall2 (fun f f' => canon f = canon f') rs rs' -> Forall2 (fun f f' => canon f = canon f') ps ps' ->
+  standardize_rsmi canon (rsmi_of rs ps) = standardize_rsmi canon (rsmi_of rs' ps').
+Proof. exact standardize_rewriting. Qed.
+Print Assumptions C09_standardize_rewriting.
+
+(** idempotence for EVERY input string, relative to the writer contract (explicit premise about RDKit, monitored by the
+    oracle clause standardize-idempotent on every run): a written fragment is read back and written as itself, and
+    contains neither '.' nor '>' *)
+Theorem C09_standardize_idempotent : forall (canon : str -> option str) (s t : str),
+  (forall f c, canon f = Some c -> canon c = Some c /\ nosep DOT c /\ nosep GT c) ->
+  standardize_rsmi canon s = SSome t -> standardize_rsmi canon t = SSome t.
+Proof. exact standardize_idempotent. Qed.
+Print Assumptions C09_standardize_idempotent.
+
+(** shape of the result: exactly two parts, on each side the surviving fragments, sorted, joined; None iff a side has no
+    surviving fragment *)
+Theorem C09_standardize_shape : forall (canon : str -> option str) (s t : str), standardize_rsmi canon s = SSome t ->
+  exists a b, split_gg s = [a; b] /\
+    t = join DOT (sort_strs (valid_frags canon a)) ++ GG ++ join DOT (sort_strs (valid_frags canon b)) /\
+    valid_frags canon a <> [] /\ valid_frags canon b <> [].
+Proof. exact standardize_shape. Qed.
+Print Assumptions C09_standardize_shape.
+
+(** Standardize.fit: with remove_aam=False (any ignore_stereo; [canon st] = writer with isomericSmiles = st) the invariances
+    of standardize_rsmi carry over; with remove_aam=True (default) the result is a function of the two cleaned sides, so fit
+    distinguishes nothing that RDKit's canonical writer of the un-numbered side does not distinguish (atom order, fragment
+    order, map numbers: RDKit contract, monitored by the clause standardize-invariant) *)
+Theorem C09_std_fit_multiset : forall (clean : str -> option str) (canon : bool -> str -> option str) (ist : bool) (rs ps rs' ps' : list str),
+  frags_ok rs -> frags_ok ps -> frags_ok rs' -> frags_ok ps' ->
+  Permutation (map (canon (negb ist)) rs) (map (canon (negb ist)) rs') ->
+  Permutation (map (canon (negb ist)) ps) (map (canon (negb ist)) ps') ->
+  std_fit clean canon false ist (rsmi_of rs ps) = std_fit clean canon false ist (rsmi_of rs' ps').
+Proof. exact std_fit_multiset. Qed.
+Print Assumptions C09_std_fit_multiset.
+
+Theorem C09_std_fit_default_invariant : forall (clean : str -> option str) (canon : bool -> str -> option str) (ist : bool) (a b a' b' : str),
+  nosep GT a -> nosep GT b -> nosep GT a' -> nosep GT b' -> clean a = clean a' -> clean b = clean b' ->
+  std_fit clean canon true ist (a ++ GG ++ b) = std_fit clean canon true ist (a' ++ GG ++ b').
+Proof. exact std_fit_default_invariant. Qed.
+Print Assumptions C09_std_fit_default_invariant.
+
+Theorem C09_std_fit_shape : forall (clean : str -> option str) (canon : bool -> str -> option str) (ra ist : bool) (s u : str),
+  std_fit clean canon ra ist s = SSome u ->
+  exists s1 t, (if ra then remove_atom_mapping clean s else Some s) = Some s1 /\
+               standardize_rsmi (canon (negb ist)) s1 = SSome t /\ u = replace_HH t.
+Proof. exact std_fit_shape. Qed.
+Print Assumptions C09_std_fit_shape.
+
+(** categorize_reactions: loss-free split; a reaction matches exactly when it IS the standard form of the target *)
+Theorem C09_categorize_spec : forall (canon : bool -> str -> option str) (rs : list str) (target : str) (m n : list str),
+  categorize canon rs target = Some (m, n) ->
+  Permutation (m ++ n) rs /\ (forall r, In r m <-> In r rs /\ standardize_rsmi (canon false) target = SSome r).
+Proof. exact categorize_spec. Qed.
+Print Assumptions C09_categorize_spec.
+
+(** rsmi_balance_check at string level: on "a>>b" with readable sides the verdict is the equality of the two formula strings
+    (CalcMolFormula: oracle; its agreement with element counts + charge is compared on every balance case through
+    [run_balance] / C09_balance_iff) *)
+Theorem C09_rsmi_balance_check_spec : forall (formula : str -> option str) (a b : str), nosep GT a -> nosep GT b ->
+  forall fa fb, formula a = Some fa -> formula b = Some fb ->
+  (rsmi_balance_check formula (a ++ GG ++ b) = Some true <-> fa = fb).
+Proof. exact rsmi_balance_check_spec. Qed.
+Print Assumptions C09_rsmi_balance_check_spec.
+
+(** 6. expand_aam's numbering ([maps] = the map numbers of all atoms, reactant molecules first, 0 = unmapped; compared with the
+       atoms of the molecules expand_aam really numbered on every `expand` case): mapped atoms keep their number, the
+       k-th unmapped atom gets next_id + k which is larger than every number of the input, strictly increasing. *)
+Theorem C09_expand_numbers_spec : forall maps : list Z,
+  let out := expand_numbers maps in
+  length out = length maps /\
+  (forall i, (i < length maps)%nat -> nth i maps 0%Z <> 0%Z -> nth i out 0%Z = nth i maps 0%Z) /\
+  (forall i, (i < length maps)%nat -> nth i maps 0%Z = 0%Z ->
+     nth i out 0%Z = (next_id maps + zeros (firstn i maps))%Z /\ forall m, In m maps -> (m < nth i out 0%Z)%Z) /\
+  (forall i j, (i < j < length maps)%nat -> nth i maps 0%Z = 0%Z -> nth j maps 0%Z = 0%Z -> (nth i out 0%Z < nth j out 0%Z)%Z) /\
+  (forall x, In x out -> (forall m, In m maps -> (0 <= m)%Z) -> (0 < x)%Z).
+Proof. exact expand_numbers_spec. Qed.
+Print Assumptions C09_expand_numbers_spec.
+
+(** per side (this is what makes the premise [parsed] of the canonicaliser theorems true after rsmi_to_graph, which uses the
+    map number as node id): every atom has its own positive number when the mapped atoms of the side had pairwise different
+    numbers; the sides share exactly the numbers they shared before (an unmapped atom never gets a partner); mapped numbers
+    are kept. *)
+Theorem C09_expand_sides_spec : forall (rmaps pmaps R P : list Z),
+  (forall m, In m (rmaps ++ pmaps) -> (0 <= m)%Z) ->
+  expand_sides (length rmaps) (rmaps ++ pmaps) = (R, P) ->
+  length R = length rmaps /\ length P = length pmaps /\
+  (NoDup (filter nz rmaps) -> NoDup R) /\ (NoDup (filter nz pmaps) -> NoDup P) /\
+  (forall x, In x R \/ In x P -> (0 < x)%Z) /\
+  (forall x, In x R -> In x P -> In x rmaps /\ In x pmaps /\ x <> 0%Z) /\
+  (forall x, x <> 0%Z -> In x rmaps -> In x R) /\ (forall x, x <> 0%Z -> In x pmaps -> In x P).
+Proof. exact expand_sides_spec. Qed.
+Print Assumptions C09_expand_sides_spec.
+
+(** 7. check_equivariant_graph: the pairs are exactly the index pairs i < j of isomorphic graphs (by C09_validator_exact:
+       of graphs isomorphic on typesGH + order), the count is their number, and smiles_check's "count == 1" on two graphs is
+       the test of the validator theorems. *)
+Theorem C09_check_equivariant_graph_spec : forall gs : list its,
+  (forall a b, In (a, b) (fst (check_equivariant_graph gs)) <->
+     (a < b < length gs)%nat /\ is_isomorphic (nth a gs its0) (nth b gs its0) = true) /\
+  snd (check_equivariant_graph gs) = length (fst (check_equivariant_graph gs)).
+Proof. exact check_equivariant_graph_spec. Qed.
+Print Assumptions C09_check_equivariant_graph_spec.
+
+Theorem C09_smiles_check_count : forall G1 H1 G2 H2 : mgraph,
+  smiles_check_rc G1 H1 G2 H2 = smiles_check_count (get_rc (its_construct G1 H1)) (get_rc (its_construct G2 H2)) /\
+  smiles_check_its G1 H1 G2 H2 = smiles_check_count (its_construct G1 H1) (its_construct G2 H2).
+Proof. exact smiles_check_rc_count. Qed.
+Print Assumptions C09_smiles_check_count.
+
+(** option handling of smiles_check (round 5; the function the validator histories evaluate): RC exactly when the
+    upper-cased method string is "RC", the full ITS for every other string; an unreadable string gives False *)
+Theorem C09_smiles_check_options : forall (m : str) (ia : bool) (G1 H1 G2 H2 : mgraph),
+  smiles_check_full m ia (Some (G1, H1)) (Some (G2, H2)) =
+  (if is_rc m then smiles_check_rc_o ia G1 H1 G2 H2 else smiles_check_its_o ia G1 H1 G2 H2) /\
+  (forall r, smiles_check_full m ia None r = false /\ smiles_check_full m ia r None = false).
+Proof. exact smiles_check_full_spec. Qed.
+Print Assumptions C09_smiles_check_options.
+
+(** FixAAM.fix_aam_rsmi (every map number + 1; [fix_aam_graph], compared with the re-parsed output on every `fixaam` case) is a
+    renumbering the validator accepts by both methods *)
+Theorem C09_fix_aam_accepted : forall G H : mgraph, wf G -> wf H ->
+  smiles_check_its (fix_aam_graph G) (fix_aam_graph H) G H = true /\
+  smiles_check_rc (fix_aam_graph G) (fix_aam_graph H) G H = true.
+Proof. exact fix_aam_accepted. Qed.
+Print Assumptions C09_fix_aam_accepted.
+
+(** 8. FULL numbering / atom-order independence and fixed point of the two back-ends (round 5).
+       Vocabulary (proof/C09_Graph.v, proof/C09_Backends.v):
+         [same_graph X Y]   = Permutation (gnodes X) (gnodes Y) /\ Permutation (map nflip (gedges X)) (map nflip (gedges Y)),
+                              nflip (u, v, o) = (min u v, max u v, o): the same labelled graph, whatever the order of the atom
+                              list, of the bond list and the direction in which each bond is written
+         [presents p G G']  = same_graph G' (set_amap (relabel p G)): the parsed graph G' is G with ids renamed by p (atom_map =
+                              new id) - what the parser returns for ANY other way of writing the same mapped reaction
+         [writer_ok W]      = forall X Y, same_graph X Y -> W X = W Y: contract of graph_to_smi (GraphToMol + RDKit canonical
+                              writer): the string is a function of the graph, not of the listing order (explicit premise)
+         [reads_back W P X Y] = the parser P (rsmi_to_graph o expand_aam) returns, on the string written for (X, Y), parsed
+                              graphs that are (X, Y) up to listing order (explicit premise about RDKit; monitored by the oracle
+                              clauses canon-fixed-point / canon-equivalent on every run)
+         [canonical_rsmi W r] = W(canonical reactant graph) ++ ">>" ++ W(canonical product graph)  (model/C09_Strings.v).
+       The hypothesis on the product atoms WITHOUT reactant partner (p keeps their relative order) cannot be dropped:
+       C09_numbering_partnerless_refuted. *)
+Theorem C09_numbering_independent_nauty : forall (G H G' H' : mgraph) (p : N -> N),
+  parsed G -> parsed H -> (exists s, In s (node_ids G) /\ In s (node_ids H)) ->
+  (forall a b, p a = p b -> a = b) ->
+  (forall m n, In m (node_ids H) -> ~ In m (node_ids G) -> In n (node_ids H) -> ~ In n (node_ids G) -> (m <= n)%N -> (p m <= p n)%N) ->
+  parsed G' -> parsed H' -> presents p G G' -> presents p H H' ->
+  C08_Spec.els_ok (to_c08 G) -> rigid (to_c08 G) ->
+  exists (pairs1 pairs2 : list (N * N)) (Gc1 Gc2 Hc1 Hc2 : mgraph),
+    canonicalise_nauty G H = Some (Gc1, pairs1, Hc1) /\
+    canonicalise_nauty G' H' = Some (Gc2, pairs2, Hc2) /\
+    same_graph Gc2 Gc1 /\ same_graph Hc2 Hc1.
+Proof. exact numbering_independent_nauty_sg. Qed.
+Print Assumptions C09_numbering_independent_nauty.
+
+Theorem C09_numbering_independent_wl : forall (ranks1 ranks2 : list (N * Z)) (G H G' H' : mgraph) (p : N -> N),
+  parsed G -> parsed H -> (exists s, In s (node_ids G) /\ In s (node_ids H)) ->
+  (forall a b, p a = p b -> a = b) ->
+  (forall m n, In m (node_ids H) -> ~ In m (node_ids G) -> In n (node_ids H) -> ~ In n (node_ids G) -> (m <= n)%N -> (p m <= p n)%N) ->
+  parsed G' -> parsed H' -> presents p G G' -> presents p H H' ->
+  (forall n, In n (node_ids G) -> C08_Model.rank_of ranks2 (p n) = C08_Model.rank_of ranks1 n) -> ranks_distinct ranks1 G ->
+  exists (pairs1 pairs2 : list (N * N)) (Gc1 Gc2 Hc1 Hc2 : mgraph),
+    canonicalise_wl ranks1 G H = Some (Gc1, pairs1, Hc1) /\
+    canonicalise_wl ranks2 G' H' = Some (Gc2, pairs2, Hc2) /\
+    same_graph Gc2 Gc1 /\ same_graph Hc2 Hc1.
+Proof. exact numbering_independent_wl_sg. Qed.
+Print Assumptions C09_numbering_independent_wl.
+
+(** fixed point: EVERY parsed presentation (G', H') of the canonical graphs - in particular what the parser returns for the
+    canonical string - is canonicalised to the canonical graphs again *)
+Theorem C09_fixed_point_nauty : forall G H : mgraph,
+  parsed G -> parsed H -> (exists s, In s (node_ids G) /\ In s (node_ids H)) ->
+  C08_Spec.els_ok (to_c08 G) -> rigid (to_c08 G) ->
+  exists (pairs1 : list (N * N)) (Gc1 Hc1 : mgraph),
+    canonicalise_nauty G H = Some (Gc1, pairs1, Hc1) /\
+    forall (G' H' : mgraph), parsed G' -> parsed H' -> same_graph G' Gc1 -> same_graph H' Hc1 ->
+      exists (pairs2 : list (N * N)) (Gc2 Hc2 : mgraph),
+        canonicalise_nauty G' H' = Some (Gc2, pairs2, Hc2) /\ same_graph Gc2 Gc1 /\ same_graph Hc2 Hc1.
+Proof. exact fixed_point_nauty_sg. Qed.
+Print Assumptions C09_fixed_point_nauty.
+
+Theorem C09_fixed_point_wl : forall (ranks1 : list (N * Z)) (G H : mgraph),
+  parsed G -> parsed H -> (exists s, In s (node_ids G) /\ In s (node_ids H)) -> ranks_distinct ranks1 G ->
+  exists (pairs1 : list (N * N)) (Gc1 Hc1 : mgraph),
+    canonicalise_wl ranks1 G H = Some (Gc1, pairs1, Hc1) /\
+    forall (ranks2 : list (N * Z)) (G' H' : mgraph), parsed G' -> parsed H' -> same_graph G' Gc1 -> same_graph H' Hc1 ->
+      (forall n, In n (node_ids G) -> C08_Model.rank_of ranks2 (sigma_of (wl_order ranks1 G) n) = C08_Model.rank_of ranks1 n) ->
+      exists (pairs2 : list (N * N)) (Gc2 Hc2 : mgraph),
+        canonicalise_wl ranks2 G' H' = Some (Gc2, pairs2, Hc2) /\ same_graph Gc2 Gc1 /\ same_graph Hc2 Hc1.
+Proof. exact fixed_point_wl_sg. Qed.
+Print Assumptions C09_fixed_point_wl.
+
+(** STRING level: CanonRSMI.canonical_rsmi.  "does not depend on the input's numbering or atom order" and "is a fixed point
+    of the canonicaliser", relative to the two RDKit contracts (explicit premises [writer_ok], [reads_back]) - and, for wl,
+    to networkx's contract that WL colours correspond under renaming (the [rank_of] premises; colours are oracle inputs). *)
+Theorem C09_canonical_rsmi_independent_nauty : forall (W : mgraph -> str) (G H G' H' : mgraph) (p : N -> N),
+  writer_ok W ->
+  parsed G -> parsed H -> (exists s, In s (node_ids G) /\ In s (node_ids H)) ->
+  (forall a b, p a = p b -> a = b) ->
+  (forall m n, In m (node_ids H) -> ~ In m (node_ids G) -> In n (node_ids H) -> ~ In n (node_ids G) -> (m <= n)%N -> (p m <= p n)%N) ->
+  parsed G' -> parsed H' -> presents p G G' -> presents p H H' ->
+  C08_Spec.els_ok (to_c08 G) -> rigid (to_c08 G) ->
+  exists s, canonical_rsmi W (canonicalise_nauty G H) = Some s /\ canonical_rsmi W (canonicalise_nauty G' H') = Some s.
+Proof. exact canonical_rsmi_independent_nauty. Qed.
+Print Assumptions C09_canonical_rsmi_independent_nauty.
+
+Theorem C09_canonical_rsmi_independent_wl : forall (W : mgraph -> str) (ranks1 ranks2 : list (N * Z)) (G H G' H' : mgraph) (p : N -> N),
+  writer_ok W ->
+  parsed G -> parsed H -> (exists s, In s (node_ids G) /\ In s (node_ids H)) ->
+  (forall a b, p a = p b -> a = b) ->
+  (forall m n, In m (node_ids H) -> ~ In m (node_ids G) -> In n (node_ids H) -> ~ In n (node_ids G) -> (m <= n)%N -> (p m <= p n)%N) ->
+  parsed G' -> parsed H' -> presents p G G' -> presents p H H' ->
+  (forall n, In n (node_ids G) -> C08_Model.rank_of ranks2 (p n) = C08_Model.rank_of ranks1 n) -> ranks_distinct ranks1 G ->
+  exists s, canonical_rsmi W (canonicalise_wl ranks1 G H) = Some s /\ canonical_rsmi W (canonicalise_wl ranks2 G' H') = Some s.
+Proof. exact canonical_rsmi_independent_wl. Qed.
+Print Assumptions C09_canonical_rsmi_independent_wl.
+
+Theorem C09_canonical_rsmi_fixed_point_nauty : forall (W : mgraph -> str) (P : str -> option (mgraph * mgraph)) (G H : mgraph),
+  writer_ok W ->
+  parsed G -> parsed H -> (exists s, In s (node_ids G) /\ In s (node_ids H)) ->
+  C08_Spec.els_ok (to_c08 G) -> rigid (to_c08 G) ->
+  (forall Gc1 pairs1 Hc1, canonicalise_nauty G H = Some (Gc1, pairs1, Hc1) -> reads_back W P Gc1 Hc1) ->
+  exists s G' H', canonical_rsmi W (canonicalise_nauty G H) = Some s /\ P s = Some (G', H') /\
+                  canonical_rsmi W (canonicalise_nauty G' H') = Some s.
+Proof. exact canonical_rsmi_fixed_point_nauty. Qed.
+Print Assumptions C09_canonical_rsmi_fixed_point_nauty.
+
+Theorem C09_canonical_rsmi_fixed_point_wl : forall (W : mgraph -> str) (P : str -> option (mgraph * mgraph)) (ranks1 : list (N * Z)) (G H : mgraph),
+  writer_ok W ->
+  parsed G -> parsed H -> (exists s, In s (node_ids G) /\ In s (node_ids H)) -> ranks_distinct ranks1 G ->
+  (forall Gc1 pairs1 Hc1, canonicalise_wl ranks1 G H = Some (Gc1, pairs1, Hc1) -> reads_back W P Gc1 Hc1) ->
+  exists s G' H', canonical_rsmi W (canonicalise_wl ranks1 G H) = Some s /\ P s = Some (G', H') /\
+    forall ranks2 : list (N * Z),
+      (forall n, In n (node_ids G) -> C08_Model.rank_of ranks2 (sigma_of (wl_order ranks1 G) n) = C08_Model.rank_of ranks1 n) ->
+      canonical_rsmi W (canonicalise_wl ranks2 G' H') = Some s.
+Proof. exact canonical_rsmi_fixed_point_wl. Qed.
+Print Assumptions C09_canonical_rsmi_fixed_point_wl.
+
+(** the canonical graphs are parsed graphs themselves (distinct positive ids, atom_map = id), for every canonical order *)
+Theorem C09_canonical_graphs_parsed : forall (G H Gc1 : mgraph) (order1 : list N),
+  parsed G -> parsed H -> (exists s, In s (node_ids G) /\ In s (node_ids H)) ->
+  enumerates order1 G -> relabelled_by (sigma_of order1) G Gc1 ->
+  exists pairs1 Gc1' Hc1', canonicalise_with Gc1 H = Some (Gc1', pairs1, Hc1') /\ parsed Gc1' /\ parsed Hc1'.
+Proof. exact canonical_graphs_parsed. Qed.
+Print Assumptions C09_canonical_graphs_parsed.
